@@ -11,18 +11,18 @@
 (***************************************************************************)
 EXTENDS LoCall, TLC, Json
 
-CONSTANTS NSamp, EmitReplay, Ancs
+CONSTANTS NSamp, EmitReplay, Ancs, WithPairs
 VARIABLES anc, sites, alleles, revs, phase
 vars == <<anc, sites, alleles, revs, phase>>
 
-K == 5
-\* two 24-base ancestors whose 4-mers are unique on both strands and none self-reverse-complementary
-AllAncestors == << <<84,67,84,71,84,67,84,84,67,67,65,67,71,67,84,67,65,84,65,67,84,84,71,67>>,    \* TCTGTCTTCCACGCTCATACTTGC
-                   <<84,65,65,67,67,65,67,65,65,84,65,71,67,71,65,65,71,84,67,65,71,65,67,65>> >>  \* TAACCACAATAGCGAAGTCAGACA
+K == 7
+\* two 36-base ancestors whose 6-mers are unique on both strands, none self-reverse-complementary
+AllAncestors == << <<71,67,84,65,65,65,71,65,67,65,65,84,84,65,67,65,84,65,65,67,65,84,65,67,65,67,71,84,67,65,71,67,65,67,71,65>>,    \* GCTAAAGACAATTACATAACATACACGTCAGCACGA
+                   <<65,67,67,67,67,65,84,67,71,71,65,67,84,71,71,67,65,84,84,84,84,84,65,84,84,65,67,65,67,84,67,65,71,65,65,65>> >>  \* ACCCCATCGGACTGGCATTTTTATTACACTCAGAAA
 Ancestors == {AllAncestors[i] : i \in Ancs}
 Init == /\ anc \in Ancestors
         /\ \E S \in SUBSET (K..(Len(anc) - 1 - K)) :
-              /\ Cardinality(S) \in {1, 2}
+              /\ Cardinality(S) \in (IF WithPairs THEN {1, 2} ELSE {1})
               /\ \A a \in S, b \in S : a # b => (IF a > b THEN a - b ELSE b - a) >= 2 * K
               /\ sites = SetToSortSeq(S, <)
         /\ alleles = <<>> /\ revs \in [1..NSamp -> BOOLEAN] /\ phase = "sites"
@@ -72,6 +72,6 @@ Traversal ==
          /\ (EmitReplay =>
                PrintT(<<"REPLAY", ToJson([kind |-> "loentries", k |-> K, samples |-> [s \in 1..NSamp |-> Samples[s][1].seq],
                                           entries |-> SetToSeq(EntryNodes(T)), nodes |-> Cardinality(Nodes(T)),
-                                          pre |-> Pre, groups |-> GroupJson(FG), indels |-> GroupJson(FI),
+                                          pre |-> Pre, truth |-> [i \in 1..Len(alleles) |-> alleles[i]], groups |-> GroupJson(FG), indels |-> GroupJson(FI),
                                           columns |-> call.columns, records |-> RecJson(call.records), panic |-> call.panic])>>))
 =============================================================================
